@@ -30,6 +30,7 @@ type Stats struct {
 	CrashStage                    map[string]int
 	Restarts                      int
 	SnapshotsInstalled            int
+	ReadySnapWithCommitted        int // Readys that carry a snapshot AND committed entries after it
 	Compactions                   int
 	ConfApplied                   int
 	LearnerSeen                   bool
@@ -339,6 +340,9 @@ func (o *Oracle) Feed(rec *Record) {
 		rd := o.pending[ev.N]
 		delete(o.pending, ev.N)
 		if rd.Snap != nil {
+			if len(rd.CEnts) > 0 {
+				o.S.ReadySnapWithCommitted++
+			}
 			o.recordSnap(seq, ev.N, rd.Snap.I, rd.Snap.T)
 			if t.handedAny && rd.Snap.I <= t.handed {
 				o.viol("C02", "handout-snapshot-backwards", seq, "node %d handed a snapshot at %d after handing out index %d", ev.N, rd.Snap.I, t.handed)
